@@ -9,6 +9,16 @@ ROOT = os.path.dirname(os.path.dirname(os.path.abspath(__file__)))
 
 # id -> (level, technique, text, note, design_ref)
 CHECKS = {
+    "C04": (
+        "exploration",
+        "deterministic simulation on a discrete-event clock: whole retry chains (default exponential and table policies, forced retries) in virtual time; reference evaluation of the chain",
+        "1-4 jobs with retries 0..4, failure masks (raise / timeout / msg.retry() / msg.force_retry()), seeded default or table "
+        "retry policies, recurring or not, on all three brokers; per scheduling: invocation count, counter at each delivery, "
+        "requeue carries counter+1 and next time = call instant + reference policy(k), attempt k+1 not before that instant "
+        "(1 ms), final place acked / dead / rescheduled.",
+        "Samples scenarios. RabbitMQ runs use one job per run (head-only TTL lateness belongs to C05's known finding).",
+        "DESIGN.md section 8 C04",
+    ),
     "C05": (
         "exploration",
         "deterministic simulation on a discrete-event clock with seeded sub-second phase: due times around 'now', consumer polling phases; take instants read from the broker side",
